@@ -1182,6 +1182,14 @@ func goFnExprFor(e *sqlparser.FuncExpr, fname string) (goexpr.Expr, error) {
 		if err != nil {
 			return nil, err
 		}
+		if fname == "LUA" {
+			// the LUA function takes its keys and arguments as ARRAY(...)
+			_, keysOK := p1.(*goexpr.ArrayExpr)
+			_, argsOK := p2.(*goexpr.ArrayExpr)
+			if !keysOK || !argsOK {
+				return nil, fmt.Errorf("Function LUA requires its 2nd and 3rd parameters to be ARRAYs")
+			}
+		}
 		return tfn(p0, p1, p2), nil
 	}
 	vfn, found := varGoExpr[fname]
